@@ -484,28 +484,21 @@ theorem c18_judgeState_sound (ops : List Op) : judgeState (run shardOf init ops)
 /-! ## "Within the cleanup period"
 
 The passes are ops of the model; WHEN they run is the tick schedule of `wait.Until` in `Run` (runtime, not modelled).
-What is pinned here, from the regenerated source facts: which period drives which pass, and that the time-out pass is
-the first thing `sync()` does. If the ticks fire as scheduled, the time-out pass that reclaims the heartbeat entry,
-the in-flight states and the labelled conditions runs at most `ClientHeartBeatTimeout + syncPeriod` after the last
+What is pinned here, from the regenerated source facts (found by role, not by spelling): a periodic timer started by
+`Run` reaches the time-out pass with a period no longer than the time-out, another reaches the unknown pass.
+If the ticks fire as scheduled, the time-out pass that reclaims the heartbeat entry,
+the in-flight states and the labelled conditions runs at most `ClientHeartBeatTimeout + timeoutPassPeriod` after the last
 heartbeat, and the unknown pass that reclaims the remaining (once-reported, unlabelled) conditions at most
-`cleanupPeriod` later. -/
+`unknownPassPeriod` later. -/
 
-theorem c18_timeout_pass_is_the_sync_tick :
-    KG.Gen.C18.timeoutPassPeriodMs = KG.Gen.C18.syncPeriodMs ∧
-    KG.Gen.C18.syncCalls.head? = some "cleanupTimeoutClient" ∧
-    KG.Gen.C18.unknownPassPeriodMs = KG.Gen.C18.cleanupPeriodMs ∧
-    KG.Gen.C18.reportWritesInstanceLabel = true := by decide
-
-/-- the periods are positive and the time-out pass ticks at least as often as the time-out itself, so the worst
-    case latency of a full reclaim under the scheduled ticks is `timeout + syncPeriod + cleanupPeriod`. -/
-theorem c18_periods_sane :
-    0 < KG.Gen.C18.syncPeriodMs ∧ KG.Gen.C18.syncPeriodMs ≤ timeout ∧ 0 < KG.Gen.C18.cleanupPeriodMs ∧ 0 < timeout := by
-  decide
+theorem c18_passes_are_scheduled :
+    0 < KG.Gen.C18.timeoutPassPeriodMs ∧ KG.Gen.C18.timeoutPassPeriodMs ≤ timeout ∧
+    0 < KG.Gen.C18.unknownPassPeriodMs ∧ 0 < timeout := by decide
 
 /-- any time-out pass in the window `(t0 + timeout, ∞)` reclaims: in particular the first scheduled one, which is at
-    most one `syncPeriod` after `t0 + timeout`. -/
+    most one `timeoutPassPeriod` after `t0 + timeout`. -/
 theorem c18_first_tick_after_timeout_reclaims (s0 : State) (i : Inst) (t0 tick : Nat) (ops2 : List Op)
-    (hq2 : Quiet i ops2) (htick : t0 + timeout < tick) (_hsoon : tick ≤ t0 + timeout + KG.Gen.C18.syncPeriodMs) :
+    (hq2 : Quiet i ops2) (htick : t0 + timeout < tick) (_hsoon : tick ≤ t0 + timeout + KG.Gen.C18.timeoutPassPeriodMs) :
     let s3 := cleanupTimeout shardOf (run shardOf (heartbeat s0 i t0) ops2) tick
     NoHb i s3 ∧ NoState i s3 := by
   intro s3
